@@ -535,7 +535,7 @@ func TestCorpus(t *testing.T) {
 }
 
 func TestGeneratedStreams(t *testing.T) {
-	harness.Rapid(t, harness.N(10000, 16*30000), func(t *rapid.T) {
+	harness.Rapid(t, harness.N(10000, 16*60000), func(t *rapid.T) {
 		b, want, open := gen.Stream(t, gen.StreamCfg{AllowOpen: true, MaxRun: 40})
 		c := Case{Bytes: b}
 		labels := []string{"accepted"}
@@ -567,7 +567,7 @@ func TestGeneratedStreams(t *testing.T) {
 
 func TestRejectedAndMutated(t *testing.T) {
 	all := corpus.All()
-	harness.Rapid(t, harness.N(10000, 16*30000), func(t *rapid.T) {
+	harness.Rapid(t, harness.N(10000, 16*60000), func(t *rapid.T) {
 		var base, other []byte
 		if rapid.Bool().Draw(t, "corpus") {
 			base = all[rapid.IntRange(0, len(all)-1).Draw(t, "file")].Data
